@@ -40,6 +40,8 @@ func vfIntsF() []vfInt {
 		{"-1", ^uint64(0), true, true, true, false, false},
 		{"0x1", 1, false, true, true, true, true},
 		{"01", 1, false, true, true, true, true},
+		{"010", 8, false, true, true, true, true},
+		{"0x10", 16, false, true, true, true, true},
 		{"2147483648", 1 << 31, false, false, true, true, true},
 		{"4294967296", 1 << 32, false, false, true, false, true},
 		{"18446744073709551615", ^uint64(0), false, false, false, false, true},
@@ -55,9 +57,9 @@ var (
 )
 
 type vfInt struct {
-	text                       string
-	val                        uint64
-	neg                        bool
+	text                               string
+	val                                uint64
+	neg                                bool
 	fitsI32, fitsI64, fitsU32, fitsU64 bool
 }
 
@@ -336,6 +338,42 @@ func verifReference(root *vfMsg, toks []*token, lits []int) vfRef {
 	return cur
 }
 
+// verifIndexStepsCarryLiterals: every list-index and integer map-key step of the parsed path has
+// the numeric value of its literal, base prefix included ("010" is 8, "0x10" is 16). Lists in the
+// messages have at most two elements, so a mis-read index would otherwise only move between
+// "absent" and "absent".
+func verifIndexStepsCarryLiterals(path protopath.Path, keyKind protoreflect.Kind) {
+	vfInts := vfIntsF()
+	var lits []int // vocabulary index of each bracketed literal, -1 if it is not a number
+	for i, t := range verifTokSeen {
+		if t.Kind == obrack && i+1 < len(verifTokSeen) {
+			lits = append(lits, verifTokLits[i+1])
+		}
+	}
+	k := 0
+	for _, st := range path {
+		switch st.Kind() {
+		case protopath.ListIndexStep:
+			if k < len(lits) && lits[k] >= 0 {
+				verifAssert(uint64(st.ListIndex()) == vfInts[lits[k]].val, "a list index step carries the value of its literal")
+			}
+			k++
+		case protopath.MapIndexStep:
+			if k < len(lits) && lits[k] >= 0 {
+				switch vfKeyClass(keyKind) {
+				case vfClassI32:
+					verifAssert(st.MapIndex().Int() == int64(int32(vfInts[lits[k]].val)), "a 32-bit integer map key step carries the value of its literal")
+				case vfClassI64:
+					verifAssert(st.MapIndex().Int() == int64(vfInts[lits[k]].val), "a 64-bit integer map key step carries the value of its literal")
+				case vfClassU32, vfClassU64:
+					verifAssert(st.MapIndex().Uint() == vfInts[lits[k]].val, "an unsigned map key step carries the value of its literal")
+				}
+			}
+			k++
+		}
+	}
+}
+
 // verifParse: under the engine the real ParsePath with its scanner cut to verifScanStub; in a native
 // replay (where the cut does not exist) ParsePath's driver loop is spelled out around the same
 // real parser steps.
@@ -376,6 +414,7 @@ func VerifC19ParseEval(maxTok, depth int) {
 	verifReach("parse_accepted")
 	ref := verifReference(msg, verifTokSeen, verifTokLits)
 	verifAssert(ref.state != vfMalformed, "only token sequences of the path grammar are accepted")
+	verifIndexStepsCarryLiterals(path, kind)
 	vs, err := PathValues(path, msg)
 	verifObserve("ref_state", ref.state)
 	verifObserve("eval_ok", err == nil)
